@@ -392,13 +392,36 @@ pub fn shim_unimplemented<T>() -> (r: T)
 // `x as usize` on an f64 (saturating, NaN -> 0): Verus has no float casts
 #[verifier::external_body]
 pub fn shim_f64_as_usize(v: f64) -> (r: usize)
+    ensures r == f64_trunc_usize(v),
 {
     v as usize
 }
 
 // ---- assumed callees (xpath/src/eval/model.rs conversions and operators, context-free) ----
+pub uninterp spec fn bool_of(v: model::Value) -> bool;        // boolean() of a value (scalars: Kani, kani/src/c09.rs)
 #[verifier::external_body]
-pub fn value_to_bool(v: &model::Value) -> (r: error::Result<bool>) { unimplemented!() }
+pub fn value_to_bool(v: &model::Value) -> (r: error::Result<bool>)
+    ensures r is Ok ==> r->Ok_0 == bool_of(*v),
+{ unimplemented!() }
+
+// ---- XPath 1.0 2.4: the truth of a predicate whose value is `v` at proximity position `pos` ----
+pub uninterp spec fn f64_of_usize(n: usize) -> f64;           // n as f64 (exact below 2^53)
+pub uninterp spec fn f64_ieee_eq(a: f64, b: f64) -> bool;     // IEEE comparison (NaN equals nothing)
+pub uninterp spec fn f64_trunc_usize(v: f64) -> usize;        // `v as usize`: truncating, saturating, NaN -> 0
+pub open spec fn predicate_truth(v: model::Value, pos: usize) -> bool {
+    match v { model::Value::Number(x) => f64_ieee_eq(x, f64_of_usize(pos)), _ => bool_of(v) }
+}
+// "the value the predicate expression evaluated to": a NAME for what eval_expr returned inside eval_predicate, so that
+// the postcondition can speak about it (nothing is assumed about the value itself)
+pub uninterp spec fn is_value_of(v: model::Value, e: expr::Expr, n: dom::XmlNode) -> bool;
+#[verifier::external_body]
+pub proof fn name_the_value(v: model::Value, e: expr::Expr, n: dom::XmlNode)
+    ensures is_value_of(v, e, n),
+{}
+#[verifier::external_body]
+pub fn shim_usize_as_f64(n: usize) -> (r: f64) ensures r == f64_of_usize(n) { n as f64 }
+#[verifier::external_body]
+pub fn shim_f64_eq(a: f64, b: f64) -> (r: bool) ensures r == f64_ieee_eq(a, b) { a == b }
 
 // `a + b`, `a - b`, `a * b`, `a / b`, `a % b`, `-a` on model::Value (impl ops::Add.. in model.rs): always a Number
 #[verifier::external_body]
@@ -870,7 +893,13 @@ def build(repo=None):
                Rule('R35', r'node\.node_name\(\) == \*target', 'shim_string_eq_str(&node.node_name(), *target)', 'String == str -> shim'),
                R_UNIMPL, R_NODETYPE])
     fns['eval_predicate'] = Fn(
-        FE, None, 'eval_predicate', props=P, safety_props=['C06'], attrs=[NODEC], ensures=[C19], rules=[R_TOBOOL, R_F64CAST],
+        FE, None, 'eval_predicate', props=P, safety_props=['C06'], attrs=[NODEC],
+        ensures=[C19, ('C05:a_numeric_predicate_is_true_exactly_at_that_position_any_other_value_by_its_boolean_value',
+                       'r is Ok ==> exists|val: model::Value| is_value_of(val, *predicate, node) && r->Ok_0 == predicate_truth(val, old(context).position@.last())')],
+        rules=[R_TOBOOL, R_F64CAST,
+               Rule('R22', r'v == context\.get_position\(\) as f64', 'shim_f64_eq(v, shim_usize_as_f64(context.get_position()))', 'usize -> f64 cast and float == : shims (Verus has neither)')],
+        inject=[(r'let value = eval_expr\(predicate, node, context\)\?;', 'proof { name_the_value(value, *predicate, __node); }'),
+                (r'let value = eval_expr\(predicate, node, context\)\?;', 'let ghost __node = node;', 'before')],
         requires=[('C05:proximity_position_is_between_1_and_the_context_size',
                    'old(context).position@.len() > 0 && old(context).size@.len() > 0 && 1 <= old(context).position@.last() <= old(context).size@.last()')])
     fns['eval_func_expr'] = Fn(
